@@ -449,25 +449,25 @@ macro_rules! group_impl {
                     ("affmul", 2) => show_jac(&parse_aff(a[0])?.mul(scalar(a[1])?)),
                     ("pre3", 1) => {
                         let p = parse_aff(a[0])?;
-                        let mut pre = vec![$aff::zero(); 3];
+                        let mut pre = vec![$aff::one(); 3] /* caller's buffer holds stale non-identity entries */;
                         p.precomp_3(&mut pre);
                         show_aff_list(&pre)
                     }
                     ("mulpre3", 2) => {
                         let p = parse_aff(a[0])?;
-                        let mut pre = vec![$aff::zero(); 3];
+                        let mut pre = vec![$aff::one(); 3] /* caller's buffer holds stale non-identity entries */;
                         p.precomp_3(&mut pre);
                         show_jac(&p.mul_precomp_3(scalar(a[1])?, &pre))
                     }
                     ("pre256", 1) => {
                         let p = parse_aff(a[0])?;
-                        let mut pre = vec![$aff::zero(); 256];
+                        let mut pre = vec![$aff::one(); 256] /* stale non-identity entries */;
                         p.precomp_256(&mut pre);
                         show_aff_list(&pre)
                     }
                     ("mulpre256", 2) => {
                         let p = parse_aff(a[0])?;
-                        let mut pre = vec![$aff::zero(); 256];
+                        let mut pre = vec![$aff::one(); 256] /* stale non-identity entries */;
                         p.precomp_256(&mut pre);
                         show_jac(&p.mul_precomp_256(scalar(a[1])?, &pre))
                     }
@@ -555,7 +555,7 @@ macro_rules! group_impl {
                         let ps = affs(a[0])?;
                         let ks = scalars(a[1])?;
                         let kr: Vec<&[u64; 4]> = ks.iter().collect();
-                        let mut pre = vec![$aff::zero(); 256 * ps.len()];
+                        let mut pre = vec![$aff::one(); 256 * ps.len()] /* stale non-identity entries */;
                         for (i, p) in ps.iter().enumerate() {
                             p.precomp_256(&mut pre[i * 256..(i + 1) * 256]);
                         }
@@ -919,6 +919,85 @@ fn repr_op<T: PrimeFieldRepr>(mk: &dyn Fn(&[u64]) -> T, n: usize, op: &str, a: &
     })
 }
 
+
+// ------------------------------------------------------------------ concrete-type routes
+// The generic functions above reach every operation through its TRAIT (`T: Field`, `T: PrimeFieldRepr`).  Method-call
+// syntax on a CONCRETE type resolves an inherent method first, so an `impl Fq { fn pow .. }` / `impl FrRepr { fn shr .. }`
+// added to the library is what library code and users calling `x.shr(n)` on the concrete type get, and the generic route
+// never sees it.  The macros below instantiate the same operations on the concrete types; `both` reports a disagreement
+// between the two routes as the result of the case (so it differs from the model's and the oracle's answer).
+macro_rules! field_op_c { ($name:ident, $t:ty) => { fn $name(op: &str, a: &[&str]) -> R {
+    Some(match (op, a.len()) {
+        ("add", 2) => { let mut x = <$t>::parse(a[0])?; x.add_assign(&<$t>::parse(a[1])?); x.show() }
+        ("sub", 2) => { let mut x = <$t>::parse(a[0])?; x.sub_assign(&<$t>::parse(a[1])?); x.show() }
+        ("mul", 2) => { let mut x = <$t>::parse(a[0])?; x.mul_assign(&<$t>::parse(a[1])?); x.show() }
+        ("neg", 1) => { let mut x = <$t>::parse(a[0])?; x.negate(); x.show() }
+        ("dbl", 1) => { let mut x = <$t>::parse(a[0])?; x.double(); x.show() }
+        ("sq", 1) => { let mut x = <$t>::parse(a[0])?; x.square(); x.show() }
+        ("inv", 1) => show_opt(<$t>::parse(a[0])?.inverse()),
+        ("iszero", 1) => show_bool(<$t>::parse(a[0])?.is_zero()),
+        ("eq", 2) => show_bool(<$t>::parse(a[0])? == <$t>::parse(a[1])?),
+        ("frob", 2) => { let mut x = <$t>::parse(a[0])?; x.frobenius_map(parse_usize(a[1])?); x.show() }
+        ("pow", 2) => {
+            let x = <$t>::parse(a[0])?;
+            let mut ls = vec![];
+            for t in split_list(a[1]) { ls.push(parse_u64(t)?); }
+            x.pow(&ls).show()
+        }
+        _ => return None,
+    })
+} } }
+macro_rules! sqrt_op_c { ($name:ident, $t:ty) => { fn $name(op: &str, a: &[&str]) -> R {
+    Some(match (op, a.len()) {
+        ("sqrt", 1) => show_opt(<$t>::parse(a[0])?.sqrt()),
+        ("legendre", 1) => show_leg(<$t>::parse(a[0])?.legendre()),
+        ("lt", 2) => show_bool(<$t>::parse(a[0])? < <$t>::parse(a[1])?),
+        _ => return None,
+    })
+} } }
+macro_rules! sgn_op_c { ($name:ident, $t:ty) => { fn $name(op: &str, a: &[&str]) -> R {
+    Some(match (op, a.len()) {
+        ("sgn0", 1) => show_sgn(<$t>::parse(a[0])?.sgn0()),
+        _ => return None,
+    })
+} } }
+macro_rules! repr_op_c { ($name:ident, $t:ty) => { fn $name(mk: &dyn Fn(&[u64]) -> $t, n: usize, op: &str, a: &[&str]) -> R {
+    let p = |s: &str| -> Option<$t> { Some(mk(&parse_limbs(s, n)?)) };
+    let show = |x: &$t| limbs_hex(x.as_ref());
+    Some(match (op, a.len()) {
+        ("add_nocarry", 2) => { let mut x = p(a[0])?; x.add_nocarry(&p(a[1])?); show(&x) }
+        ("sub_noborrow", 2) => { let mut x = p(a[0])?; x.sub_noborrow(&p(a[1])?); show(&x) }
+        ("shr", 2) => { let mut x = p(a[0])?; x.shr(parse_u64(a[1])? as u32); show(&x) }
+        ("shl", 2) => { let mut x = p(a[0])?; x.shl(parse_u64(a[1])? as u32); show(&x) }
+        ("div2", 1) => { let mut x = p(a[0])?; x.div2(); show(&x) }
+        ("mul2", 1) => { let mut x = p(a[0])?; x.mul2(); show(&x) }
+        ("num_bits", 1) => p(a[0])?.num_bits().to_string(),
+        ("is_odd", 1) => show_bool(p(a[0])?.is_odd()),
+        ("is_zero", 1) => show_bool(p(a[0])?.is_zero()),
+        ("cmp", 2) => match p(a[0])?.cmp(&p(a[1])?) {
+            std::cmp::Ordering::Less => "-1", std::cmp::Ordering::Equal => "0", std::cmp::Ordering::Greater => "1",
+        }.to_string(),
+        ("from_u64", 1) => show(&<$t>::from(parse_u64(a[0])?)),
+        ("read_be", 1) => { let bs = parse_bytes(a[0])?; let mut x = mk(&vec![0u64; n]); match x.read_be(&bs[..]) { Ok(()) => show(&x), Err(_) => "ERR:eof".to_string() } }
+        ("read_le", 1) => { let bs = parse_bytes(a[0])?; let mut x = mk(&vec![0u64; n]); match x.read_le(&bs[..]) { Ok(()) => show(&x), Err(_) => "ERR:eof".to_string() } }
+        ("write_be", 1) => { let mut buf = vec![]; p(a[0])?.write_be(&mut buf).ok()?; show_bytes(&buf) }
+        ("write_le", 1) => { let mut buf = vec![]; p(a[0])?.write_le(&mut buf).ok()?; show_bytes(&buf) }
+        _ => return None,
+    })
+} } }
+field_op_c!(field_op_fq, Fq); field_op_c!(field_op_fr, Fr); field_op_c!(field_op_fq2, Fq2); field_op_c!(field_op_fq6, Fq6); field_op_c!(field_op_fq12, Fq12);
+sqrt_op_c!(sqrt_op_fq, Fq); sqrt_op_c!(sqrt_op_fr, Fr); sqrt_op_c!(sqrt_op_fq2, Fq2);
+sgn_op_c!(sgn_op_fq, Fq); sgn_op_c!(sgn_op_fq2, Fq2);
+repr_op_c!(repr_op_fq, FqRepr); repr_op_c!(repr_op_fr, FrRepr);
+
+fn both(tr: R, co: R) -> R {
+    match (tr, co) {
+        (Some(x), Some(y)) => if x == y { Some(x) } else { Some(format!("ROUTE-MISMATCH trait={} concrete={}", x, y)) },
+        (x, None) => x,
+        (None, y) => y,
+    }
+}
+
 // ------------------------------------------------------------------ dispatch
 
 fn run_line(line: &str) -> String {
@@ -930,17 +1009,19 @@ fn run_line(line: &str) -> String {
         "fq" if toks.len() >= 2 => {
             let (op, a) = (toks[1], &toks[2..]);
             if op == "fromrepr" && a.len() == 1 {
-                parse_limbs(a[0], 6).map(|l| match Fq::from_repr(repr6(&l)) { Ok(x) => x.show(), Err(_) => "ERR:NotInField".to_string() })
+                both(parse_limbs(a[0], 6).map(|l| match <Fq as PrimeField>::from_repr(repr6(&l)) { Ok(x) => x.show(), Err(_) => "ERR:NotInField".to_string() }),
+                     parse_limbs(a[0], 6).map(|l| match Fq::from_repr(repr6(&l)) { Ok(x) => x.show(), Err(_) => "ERR:NotInField".to_string() }))
             } else {
-                field_op::<Fq>(op, a).or_else(|| sqrt_op::<Fq>(op, a)).or_else(|| sgn_op::<Fq>(op, a))
+                both(field_op::<Fq>(op, a).or_else(|| sqrt_op::<Fq>(op, a)).or_else(|| sgn_op::<Fq>(op, a)), field_op_fq(op, a).or_else(|| sqrt_op_fq(op, a)).or_else(|| sgn_op_fq(op, a)))
             }
         }
         "fr" if toks.len() >= 2 => {
             let (op, a) = (toks[1], &toks[2..]);
             if op == "fromrepr" && a.len() == 1 {
-                parse_limbs(a[0], 4).map(|l| match Fr::from_repr(repr4(&l)) { Ok(x) => x.show(), Err(_) => "ERR:NotInField".to_string() })
+                both(parse_limbs(a[0], 4).map(|l| match <Fr as PrimeField>::from_repr(repr4(&l)) { Ok(x) => x.show(), Err(_) => "ERR:NotInField".to_string() }),
+                     parse_limbs(a[0], 4).map(|l| match Fr::from_repr(repr4(&l)) { Ok(x) => x.show(), Err(_) => "ERR:NotInField".to_string() }))
             } else {
-                field_op::<Fr>(op, a).or_else(|| sqrt_op::<Fr>(op, a))
+                both(field_op::<Fr>(op, a).or_else(|| sqrt_op::<Fr>(op, a)), field_op_fr(op, a).or_else(|| sqrt_op_fr(op, a)))
             }
         }
         "fq2" if toks.len() >= 2 => {
@@ -948,7 +1029,7 @@ fn run_line(line: &str) -> String {
             match (op, a.len()) {
                 ("norm", 1) => Fq2::parse(a[0]).map(|x| x.norm().show()),
                 ("nonres", 1) => Fq2::parse(a[0]).map(|mut x| { x.mul_by_nonresidue(); x.show() }),
-                _ => field_op::<Fq2>(op, a).or_else(|| sqrt_op::<Fq2>(op, a)).or_else(|| sgn_op::<Fq2>(op, a)),
+                _ => both(field_op::<Fq2>(op, a).or_else(|| sqrt_op::<Fq2>(op, a)).or_else(|| sgn_op::<Fq2>(op, a)), field_op_fq2(op, a).or_else(|| sqrt_op_fq2(op, a)).or_else(|| sgn_op_fq2(op, a))),
             }
         }
         "fq6" if toks.len() >= 2 => {
@@ -957,7 +1038,7 @@ fn run_line(line: &str) -> String {
                 ("nonres", 1) => Fq6::parse(a[0]).map(|mut x| { x.mul_by_nonresidue(); x.show() }),
                 ("mulby1", 2) => (|| { let mut x = Fq6::parse(a[0])?; x.mul_by_1(&Fq2::parse(a[1])?); Some(x.show()) })(),
                 ("mulby01", 3) => (|| { let mut x = Fq6::parse(a[0])?; x.mul_by_01(&Fq2::parse(a[1])?, &Fq2::parse(a[2])?); Some(x.show()) })(),
-                _ => field_op::<Fq6>(op, a),
+                _ => both(field_op::<Fq6>(op, a), field_op_fq6(op, a)),
             }
         }
         "fq12" if toks.len() >= 2 => {
@@ -965,7 +1046,7 @@ fn run_line(line: &str) -> String {
             match (op, a.len()) {
                 ("conj", 1) => Fq12::parse(a[0]).map(|mut x| { x.conjugate(); x.show() }),
                 ("mulby014", 4) => (|| { let mut x = Fq12::parse(a[0])?; x.mul_by_014(&Fq2::parse(a[1])?, &Fq2::parse(a[2])?, &Fq2::parse(a[3])?); Some(x.show()) })(),
-                _ => field_op::<Fq12>(op, a),
+                _ => both(field_op::<Fq12>(op, a), field_op_fq12(op, a)),
             }
         }
         "g1" if toks.len() >= 2 => g1::op(toks[1], &toks[2..]),
@@ -975,8 +1056,8 @@ fn run_line(line: &str) -> String {
         "lfr" if toks.len() >= 2 => mfr_op(toks[1], &toks[2..]),
         "mfr" if toks.len() >= 2 => mfr_op(toks[1], &toks[2..]),
         "repr" if toks.len() >= 3 => match toks[1] {
-            "6" => repr_op::<FqRepr>(&|l| repr6(l), 6, toks[2], &toks[3..]),
-            "4" => repr_op::<FrRepr>(&|l| repr4(l), 4, toks[2], &toks[3..]),
+            "6" => both(repr_op::<FqRepr>(&|l| repr6(l), 6, toks[2], &toks[3..]), repr_op_fq(&|l| repr6(l), 6, toks[2], &toks[3..])),
+            "4" => both(repr_op::<FrRepr>(&|l| repr4(l), 4, toks[2], &toks[3..]), repr_op_fr(&|l| repr4(l), 4, toks[2], &toks[3..])),
             _ => None,
         },
         op => hash_op(op, &toks[1..]).or_else(|| misc_op(op, &toks[1..])),
